@@ -85,6 +85,23 @@ func scenarioC06(d time.Duration, seed int64) int {
 					return
 				default:
 				}
+				if r.Intn(6) == 0 {
+					// a route only this goroutine ever touches: what it observes must be sequential
+					own := fmt.Sprintf("/own%d/{id}", wi)
+					e.r.Remove(own)
+					func() {
+						defer func() { recover() }()
+						e.r.Handle(own, &rcH{"O:" + own}, nil, http.MethodPost)
+					}()
+					if h := doReq(e.r, http.MethodPost, fmt.Sprintf("/own%d/3", wi)).Header().Get("X-H"); h != "O:"+own {
+						e.fail("a route registered and used by one goroutine only answered %q", h)
+					}
+					e.r.Remove(own, http.MethodGet) // removing a method it does not have changes nothing
+					if h := doReq(e.r, http.MethodPost, fmt.Sprintf("/own%d/3", wi)).Header().Get("X-H"); h != "O:"+own {
+						e.fail("a route registered and used by one goroutine only answered %q after an unrelated Remove", h)
+					}
+					continue
+				}
 				p := mine[r.Intn(len(mine))]
 				switch r.Intn(4) {
 				case 0, 1:
@@ -123,6 +140,9 @@ func scenarioC06(d time.Duration, seed int64) int {
 				case 1:
 					if u, err := e.r.URL(true, "/users/{id}", map[string]string{"id": "7"}); err != nil || u != "/users/7" {
 						e.fail("URL of an untouched route: %q %v", u, err)
+					}
+					if u, err := e.r.URL(true, "/stable/{id}/x", map[string]string{"id": "8"}); err != nil || u != "/stable/8/x" {
+						e.fail("URL of an untouched route whose node is being split: %q %v", u, err)
 					}
 				case 2:
 					p := toggles[r.Intn(len(toggles))]
@@ -194,6 +214,15 @@ func scenarioC07(d time.Duration, seed int64) int {
 				}
 				rt.Remove("/a/b")
 				hs := mux.NewHosts(false, fmt.Sprintf("h%d.example.com", i), "{sub}.example.org")
+				func() {
+					defer func() {
+						if v := recover(); v != nil {
+							e.fail("instance %d: registering an interceptor on a fresh Hosts failed: %v", i, v)
+						}
+					}()
+					hs.RegisterInterceptor(func(s string) bool { return len(s) == i+1 }, "mine", fmt.Sprintf("len%d", i))
+					hs.Add("{n:mine}.lan")
+				}()
 				ctx := types.NewContext()
 				req := httptest.NewRequest("GET", "http://x/", nil)
 				req.Host = fmt.Sprintf("H%d.example.com:80", i)
